@@ -24,7 +24,7 @@ import (
 )
 
 type Case struct {
-	// AfterPanic: before the case is built, another File is rendered that panics in the documented
+	// AfterPanic: before the case is built, other code is rendered that fails (gofmt rejects it, the writer fails) or panics in the documented
 	// way (Lit of an unsupported type) half-way through; the panic is recovered, as a caller would.
 	AfterPanic bool `json:"afterpanic,omitempty"`
 	// Late: configuration calls made after a first Render of the same File; the File is then
@@ -41,6 +41,10 @@ type countingWriter struct {
 }
 
 func (w *countingWriter) Write(p []byte) (int, error) { w.calls++; return w.buf.Write(p) }
+
+type failingWriter struct{}
+
+func (failingWriter) Write(p []byte) (int, error) { return 0, fmt.Errorf("writer fails") }
 
 func noFormat(f *recipe.File) *recipe.File {
 	g := f.Clone()
@@ -117,6 +121,19 @@ func checkCore(c Case) error {
 				func() {
 					defer func() { _ = recover() }()
 					_ = jen.Id("leakedstmt").Op(":=").Lit(1).Line().Lit([]int{}).Render(&bytes.Buffer{})
+				}()
+				// renders that fail in the ordinary ways: code gofmt rejects, a writer that fails
+				func() {
+					defer func() { _ = recover() }()
+					f := jen.NewFile("leak")
+					f.Func().Id("leakedfunc").Params().Block(jen.Id("leakedbody").Op(")"))
+					_ = f.Render(&bytes.Buffer{})
+					_ = jen.Id("leakedfrag").Op("}").Render(&bytes.Buffer{})
+					_ = jen.Id("leakedfrag2").Op("}").RenderWithFile(&bytes.Buffer{}, jen.NewFile("leak"))
+					g := jen.NewFile("leak")
+					g.Var().Id("leakedok").Op("=").Lit(1)
+					_ = g.Render(failingWriter{})
+					_ = jen.Id("leakedok2").Render(failingWriter{})
 				}()
 			}
 		}
